@@ -333,7 +333,7 @@ PROPS = {
     "C09": {"level": "model_checking", "hang": True,
             "quick": lambda s: gen.fam_hostile_srv(s) + gen.fam_hostile_cli(s) + gen.fam_hostile_mdfuzz(s, 40),
             "thorough": lambda s: gen.fam_hostile_srv(s) + gen.fam_hostile_cli(s) + sum((gen.fam_hostile_mdfuzz(s + i, 100) for i in range(6)), [])},
-    "C05": {"level": "model_checking", "runner": run_c05, "hang": True,
+    "C05": {"level": "model_checking", "runner": run_c05, "hang": True, "engine": "tlc-flowsender",
             # (a sender waiting for credit is released when its RPC is cancelled: C05's own quantification includes cancellation)
             "also": ["C03_BystandersComplete", "C06_SenderWithinWindow", "C06_CreditBounded", "C07_CallerEndsAlone", "C07_HandlerReleased"],
             # liveness of the tunnel design under fairness (every caller operation returns, every handler ends)
@@ -343,7 +343,8 @@ PROPS = {
             "technique": "TLC model checking of FlowSender.tla + exhaustive gated replay of its state graph against the real sender (trace validation); tunnel-level trace validation; Apalache induction on FlowAbs.tla (thorough)"},
     "C12": {"level": "model_checking", "runner": run_registry, "engine": "tlc-registry", "hang": True,
             "also": ["C14_ServeLeavesNothing", "C14_RegistryEmptyAtEnd", "C10_NoNewTunnels", "C10_StopMeansStopped"],
-            "technique": "TLC model checking of Registry.tla (two-step registration, unregister, round robin, callbacks) + TLA+ trace validation of multi-tunnel histories of the real handler (RegistryMon.tla)"},
+            "technique": "TLC model checking of Registry.tla (two-step registration, unregister, round robin, callbacks; liveness) + TLA+ trace validation of multi-tunnel histories of the real handler (RegistryMon.tla) + strict conformance of those histories to the model (RegistryTrace.tla)",
+            "text": "the registry design (global and per-key lists updated in separate critical sections by handler and closer threads, round-robin cursor, readiness latch, callbacks) is model-checked exhaustively for three tunnels; histories of the real TunnelServiceHandler / ReverseTunnelServer (tunnels opened with colliding or no keys, ended from either side or broken, at every sub-step, interleaved with routed RPCs, Ready/WaitForReady and enumeration) are recorded and TLC evaluates the C12 formulas in every state of every history and searches for a behaviour of the design model that explains it"},
     "C15": {"level": "exploration", "runner": run_c15, "hang": True, "race": True,
             "also": ["C01_", "C02_", "C03_B", "C04_", "C05_", "C06_", "C07_", "C08_", "C13_", "C14_", "C16_", "C17_"],
             "quick": lambda s: gen.fam_free(s, 64) + [x for x in gen.fam_meta(s, 32, gated=False) if "meta-bin" not in x["name"]]
